@@ -129,11 +129,21 @@ def build_targets(desc, root=ROOT):
 
 
 _REAL_ROOT = [None]
+_REAL_ROOTS = {}
 LAST_ROOT = [ROOT]  # root used by the most recent build_graph (virtual /proj or the real one)
 
 
-def real_root():
-    """A real, empty directory used as project root (and process cwd) by cases with relative working dirs."""
+def real_root(which=0):
+    """A real directory used as project root (and process cwd).  Two of them exist so that consecutive cases in one
+    process resolve the same relative working directories and paths from different current directories."""
+    if which:
+        saved = _REAL_ROOT[0]
+        _REAL_ROOT[0] = _REAL_ROOTS.get(which)
+        try:
+            _REAL_ROOTS[which] = real_root(0)
+        finally:
+            _REAL_ROOT[0] = saved
+        return _REAL_ROOTS[which]
     if _REAL_ROOT[0] is None or not os.path.isdir(_REAL_ROOT[0]):
         import atexit
         import shutil
@@ -158,7 +168,7 @@ def build_graph(desc, root=ROOT, real=False):
     from gwf.core import Graph
 
     if real or any(d.get("relwd") for d in desc["targets"]):
-        root = real_root()
+        root = real_root(1 if desc.get("alt_root") else 0)
         old = os.getcwd()
         os.chdir(root)
         try:
